@@ -88,7 +88,7 @@ func c29Gen(t *rapid.T, tier string) any {
 			case "chain":
 				op.Depth = rapid.SampledFrom([]int{0, 1, 2, 3, 6, 7}).Draw(t, "depth")
 				op.Start = rapid.IntRange(0, 5).Draw(t, "start")
-				op.Rem = rapid.SampledFrom([]string{"", "x", "x/y"}).Draw(t, "rem")
+				op.Rem = rapid.SampledFrom([]string{"", "x", "x/y", "/", "x/"}).Draw(t, "rem") // "/" = nothing but a trailing slash
 			}
 			return op
 		})
@@ -402,7 +402,9 @@ func c29Run(t *testing.T, ci any, trace bool) *verifsim.Result {
 					case "chain":
 						start := op.Start % nh
 						reqs := chainNames[start].AsPath().String()
-						if op.Rem != "" {
+						if op.Rem == "/" {
+							reqs += "/"
+						} else if op.Rem != "" {
 							reqs += "/" + op.Rem
 						}
 						req, _ := path.NewPath(reqs)
@@ -444,7 +446,9 @@ func c29Run(t *testing.T, ci any, trace bool) *verifsim.Result {
 						for _, r := range rems {
 							want += "/" + r
 						}
-						if op.Rem != "" {
+						if op.Rem == "/" {
+							want += "/" // a trailing slash is part of the remainder and is kept
+						} else if op.Rem != "" {
 							want += "/" + op.Rem
 						}
 						if res.Path.String() != want {
